@@ -26,6 +26,8 @@ FIRST = {
     "C01/7": "missed", "C04/7": "missed", "C05/7": "missed", "C10/7": "missed", "C14/8": "missed", "C17/7": "missed",
     # round 8 (11 changes, 6 missed)
     "C02/7": "missed", "C03/8": "missed", "C11/7": "missed", "C12/7": "missed", "C13/7": "missed", "C15/7": "missed",
+    # round 9 (8 changes, 2 missed)
+    "C07/8": "missed", "C19/8": "missed",
 }
 
 
